@@ -182,7 +182,12 @@ def monC08 (h : Hist) : Option String :=
           -- the failure. Sequential, fault-free histories only; the write is recognised by the reply's body token.
           let sieAround := Spec.hasDirective Spec.rfc e.resp.header (str% "stale-if-error") || Spec.hasDirective Spec.rfc ri.req.header (str% "stale-if-error")
           let failure := [500, 502, 503, 504].contains rp.resp.status
-          if !h.faults.isEmpty || h.concurrent || (replyForbidsStoring ri rp).isSome || (failure && sieAround) ||
+          -- (a background revalidation that overlaps another exchange's origin call may find the entry replaced when its own
+          --  reply arrives, and rightly leaves it alone: only background work that ran alone is judged)
+          let overlapped := stream == "bg" && h.evs.any fun
+            | .call c' => c'.n ≠ ri.n && c'.t0 ≤ c.t1 && c'.t1 ≥ c.t0
+            | _ => false
+          if !h.faults.isEmpty || h.concurrent || overlapped || (replyForbidsStoring ri rp).isSome || (failure && sieAround) ||
              !(Spec.hasDirective Spec.rfc rp.resp.header (str% "max-age") || !(Header.get rp.resp.header sExpires).isEmpty) ||
              rp.bodyFail ≥ 0 || rp.resp.status < 200 || Spec.hasDirective Spec.rfc rp.resp.header (str% "must-understand") then none
           else if stores.any (fun s => match s.op, s.result, s.val with
